@@ -245,6 +245,10 @@ type Runner struct {
 
 // Discharge runs the portfolio on one VC.
 func (r *Runner) Discharge(x *Exec, vc *VC) *Result {
+	if vc.Goal.S == "true" {
+		// the goal was reduced to true by the symbolic executor's term simplifier
+		return &Result{VC: vc, Status: "unsat", Solver: "simplifier", QF: true}
+	}
 	r.mu.Lock()
 	r.n++
 	id := fmt.Sprintf("vc%05d", r.n)
